@@ -31,7 +31,19 @@ type fakeServer struct {
 	log     *attemptLog
 	conns   []net.Conn
 	delayMs int // delay before every answer (C17 completion orders)
+	ctrl    *bkCtrl // fail-backup schedules: every dial and every arriving request is reported, answers are held
+	wmu     sync.Mutex
 }
+
+// events of a fail-backup schedule, in the order they happen
+type bkEvent struct {
+	kind string // dial | arrive
+	srv  int
+	ok   bool          // dial: accepted
+	act  string        // arrive: the scripted outcome
+	rel  chan struct{} // arrive: closing it lets the server act
+}
+type bkCtrl struct{ ev chan bkEvent }
 
 type attemptLog struct {
 	mu  sync.Mutex
@@ -88,7 +100,11 @@ func init() {
 			ok = s.dials[0]
 			s.dials = s.dials[1:]
 		}
+		ctrl := s.ctrl
 		s.mu.Unlock()
+		if ctrl != nil {
+			ctrl.ev <- bkEvent{kind: "dial", srv: s.id, ok: ok}
+		}
 		if !ok {
 			return nil, errors.New("vsrv: connection refused")
 		}
@@ -133,39 +149,57 @@ func (s *fakeServer) serve(conn net.Conn) {
 		if s.log != nil {
 			s.log.add(fmt.Sprintf("s%d:%s", s.id, act))
 		}
-		if delay > 0 {
-			time.Sleep(time.Duration(delay) * time.Millisecond)
-		}
-		oneway := f.Header[2]&0x20 != 0
-		switch {
-		case act == "lost":
-			return
-		case act == "ctx":
-			if onCtx != nil {
-				onCtx()
-			}
-			continue // never answers
-		case act == "dl" || act == "silent":
+		if s.ctrl != nil {
+			rel := make(chan struct{})
+			s.ctrl.ev <- bkEvent{kind: "arrive", srv: s.id, act: act, rel: rel}
+			go func(f *refcodec.Frame, act string) {
+				<-rel
+				s.respond(conn, f, act, 0, onCtx)
+			}(f, act)
 			continue
 		}
-		if oneway {
-			continue
-		}
-		var h [12]byte
-		copy(h[:], f.Header[:])
-		h[2] = (h[2] &^ 0x1c) | 0x80 // response, uncompressed
-		var meta []refcodec.KV
-		var payload []byte
-		if act == "svc" {
-			h[2] |= 0x01
-			meta = []refcodec.KV{{K: []byte(protocol.ServiceError), V: []byte(fmt.Sprintf("svc-error-from-s%d", s.id))}}
-		} else { // ok<r>
-			n, _ := strconv.Atoi(act[2:])
-			payload = []byte(strconv.Itoa(n))
-		}
-		out := refcodec.Build(h, f.Path, f.Method, meta, payload)
-		if _, err := conn.Write(out); err != nil {
+		if !s.respond(conn, f, act, delay, onCtx) {
 			return
 		}
 	}
+}
+
+// respond acts on one request as scripted; false = the connection is gone
+func (s *fakeServer) respond(conn net.Conn, f *refcodec.Frame, act string, delay int, onCtx func()) bool {
+	if delay > 0 {
+		time.Sleep(time.Duration(delay) * time.Millisecond)
+	}
+	oneway := f.Header[2]&0x20 != 0
+	switch {
+	case act == "lost":
+		conn.Close()
+		return false
+	case act == "ctx":
+		if onCtx != nil {
+			onCtx()
+		}
+		return true // never answers
+	case act == "dl" || act == "silent":
+		return true
+	}
+	if oneway {
+		return true
+	}
+	var h [12]byte
+	copy(h[:], f.Header[:])
+	h[2] = (h[2] &^ 0x1c) | 0x80 // response, uncompressed
+	var meta []refcodec.KV
+	var payload []byte
+	if act == "svc" {
+		h[2] |= 0x01
+		meta = []refcodec.KV{{K: []byte(protocol.ServiceError), V: []byte(fmt.Sprintf("svc-error-from-s%d", s.id))}}
+	} else { // ok<r>
+		n, _ := strconv.Atoi(act[2:])
+		payload = []byte(strconv.Itoa(n))
+	}
+	out := refcodec.Build(h, f.Path, f.Method, meta, payload)
+	s.wmu.Lock()
+	_, err := conn.Write(out)
+	s.wmu.Unlock()
+	return err == nil
 }
